@@ -7,8 +7,8 @@ import (
 	"encoding/json"
 	"fmt"
 	"os"
-	"runtime/debug"
 	"path/filepath"
+	"runtime/debug"
 	"sort"
 	"sync"
 )
